@@ -238,6 +238,7 @@ type Scenario struct {
 	OwnFertRows          []FertRow         `json:",omitempty"` // rows added to the fertiliser table of the project's own parameter folder
 	OwnFertFront         []bool            `json:",omitempty"` // ... listed in front of the shipped rows (else behind them)
 	ReducedTablesOnly    string            `json:",omitempty"` // "" = both texture tables lack the texture, else only the named one (PARCAP.TRU / HYPAR.TRU)
+	DateSep              string            `json:",omitempty"` // separator inside the dates of the input files and of the configured end date ("" . / -)
 	ReducedTablesWithout string            // the project runs with a parameter folder of its own whose texture tables lack this texture
 	OwnNFunction         map[string]int    `json:",omitempty"` // YAML crop parameter file -> N-content function (7, 8, 9) it carries in the project's own parameter folder
 	AliasCrops           map[string]string // crop code of the built-in table without a shipped parameter file -> shipped crop whose parameter file the project supplies under that name
@@ -630,6 +631,11 @@ func genWithProfile(prop string, seed uint64, idx int, r *Rng, p Profile) *Scena
 		}
 	}
 
+	// 12 % of the projects write their dates with separators (31.12.2010, 12/31/2010, 31-12-10) in every dated input file and
+	// in the configured end date - a spelling the date conversion supports
+	if rd := NewRng(mix(mix(seed, uint64(idx)), 2121)); rd.Bool(0.12) && prop != "C14" {
+		sc.DateSep = pickS(rd, []string{".", ".", "/", "-"})
+	}
 	// ---------------- soil ----------------
 	genSoil(sc, r, p)
 
